@@ -36,7 +36,7 @@ import (
 
 type c15Input struct {
 	Kind    string    `json:"kind"` // "obs" | "outcome"
-	Mode    string    `json:"mode"` // "valid" | "violate" | "lenient" | "malformed" | "gcstress" | "encstress"
+	Mode    string    `json:"mode"` // "valid" | "violate" | "lenient" | "malformed" | "gcstress" | "encstress" | "decstress"
 	Obs     *JObs     `json:"obs,omitempty"`
 	Outcome *JOutcome `json:"outcome,omitempty"`
 	// Nil: Go renders nil and empty slices differently (null vs []); bit 0 empty
@@ -59,19 +59,24 @@ type c15WG struct {
 }
 
 type c15Impl struct {
-	Text    string          `json:"text,omitempty"` // bytes handed to Decode (valid/violate/lenient: JSON text)
-	Panic   string          `json:"panic"`          // "" | recovered panic value | "fatal: …" | "timeout"
-	Err     string          `json:"err"`            // "ok" | "malformed" | rule name
-	ErrText string          `json:"errText,omitempty"`
-	Obs     *JObs           `json:"obs,omitempty"`
-	Outcome *JOutcome       `json:"outcome,omitempty"`
-	Codec   string          `json:"codec"`         // JSON package behind Decode…, probed: "goccy" | "std"
-	Alias   string          `json:"alias"`         // retained-bytes / retained-value check: what changed after a later Encode or after the input buffer was reused
-	Oob     string          `json:"oob"`           // the explicit-zeros probe (c15ZeroFillProbe) saw a write outside a short [32]byte array
-	UnmOk   bool            `json:"unmOk"`         // lenient: bare goccy Unmarshal succeeded
-	Unm     json.RawMessage `json:"unm,omitempty"` // lenient: that value, canonical
-	Utg     []c15UT         `json:"utg"`
-	Wg      []c15WG         `json:"wg"`
+	Text    string    `json:"text,omitempty"` // bytes handed to Decode (valid/violate/lenient: JSON text)
+	Panic   string    `json:"panic"`          // "" | recovered panic value | "fatal: …" | "timeout"
+	Err     string    `json:"err"`            // "ok" | "malformed" | rule name
+	ErrText string    `json:"errText,omitempty"`
+	Obs     *JObs     `json:"obs,omitempty"`
+	Outcome *JOutcome `json:"outcome,omitempty"`
+	Codec   string    `json:"codec"` // JSON package behind Decode…, probed: "goccy" | "std"
+	// Again: the same bytes decoded a second time after everything reachable from the first result was overwritten;
+	// Alt: … under the second (utg, wg) pair (c15UtgAlt, c15WgAlt); Back: … under the first pair once more
+	Again *c15Answer      `json:"again,omitempty"`
+	Alt   *c15Answer      `json:"alt,omitempty"`
+	Back  *c15Answer      `json:"back,omitempty"`
+	Alias string          `json:"alias"`         // retained-bytes / retained-value check: what changed after a later Encode or after the input buffer was reused
+	Oob   string          `json:"oob"`           // the explicit-zeros probe (c15ZeroFillProbe) saw a write outside a short [32]byte array
+	UnmOk bool            `json:"unmOk"`         // lenient: bare goccy Unmarshal succeeded
+	Unm   json.RawMessage `json:"unm,omitempty"` // lenient: that value, canonical
+	Utg   []c15UT         `json:"utg"`
+	Wg    []c15WG         `json:"wg"`
 }
 
 // ---------------------------------------------------------------- error classes
@@ -315,6 +320,7 @@ func c15RunLocal(in c15Input) c15Impl {
 			impl.Alias = "encode: " + c15FirstDiff(snap, data)
 		}
 		c15DecodeRetained(in.Kind, data, &impl)
+		c15Repeat(in.Kind, snap, &impl)
 	case "lenient":
 		impl.Text = string(in.Raw)
 		// the first step of Decode…, repeated here to see the value before validation
@@ -335,13 +341,18 @@ func c15RunLocal(in c15Input) c15Impl {
 			}
 		}()
 		c15Decode(in.Kind, in.Raw, &impl, nil)
+		c15Repeat(in.Kind, in.Raw, &impl)
 		impl.Oob = c15ZeroFillProbe(in.Kind, in.Raw)
 	case "gcstress":
 		c15GCStress(in.Kind, &impl)
 	case "encstress":
 		c15EncodeStress(in.Kind, &impl)
+	case "decstress":
+		c15DecodeStress(in.Kind, &impl)
 	default:
 		c15Decode(in.Kind, in.Raw, &impl, env)
+		c15Repeat(in.Kind, in.Raw, &impl)
+		impl.Again, impl.Alt, impl.Back = nil, nil, nil // arbitrary bytes: no tree for the model, the Go-side comparison (impl.Alias) stands
 		impl.Oob = c15ZeroFillProbe(in.Kind, in.Raw)
 	}
 	env.into(&impl)
@@ -1175,6 +1186,37 @@ var c15Violations = func() []c15Violation {
 		nc := r.Range(0, rest)
 		o.UpkeepProposals = c15Proposals(r, nc, nl, r.Range(0, rest-nc))
 		return c15ObsIn(o, "logProposalsOverLimit", r)
+	})
+
+	// a message that is valid for the SECOND (utg, wg) pair of the run (c15UtgAlt / c15WgAlt) and
+	// breaks the work-id rule for the first: upkeeps of a third type, work ids of the other generator
+	altResults := func(r *Rng, n int) []ocr2keepers.CheckResult {
+		var out []ocr2keepers.CheckResult
+		for i := 0; i < n; i++ {
+			res := c15Result(r, 2)
+			res.WorkID = c15WgAlt(res.UpkeepID, res.Trigger)
+			out = append(out, res)
+		}
+		return out
+	}
+	altProposals := func(r *Rng, n int) []ocr2keepers.CoordinatedBlockProposal {
+		var out []ocr2keepers.CoordinatedBlockProposal
+		for i := 0; i < n; i++ {
+			p := c15Proposal(r, 2)
+			p.WorkID = c15WgAlt(p.UpkeepID, p.Trigger)
+			out = append(out, p)
+		}
+		return out
+	}
+	add(func(r *Rng) c15Input {
+		o := ocr2keepersv3.AutomationObservation{Performable: altResults(r, r.Range(1, 3)), UpkeepProposals: altProposals(r, r.Range(0, 3)),
+			BlockHistory: c15History(r, r.Range(0, 4))}
+		return c15ObsIn(o, "wrongWorkIDResult", r)
+	})
+	add(func(r *Rng) c15Input {
+		o := ocr2keepersv3.AutomationOutcome{AgreedPerformables: altResults(r, r.Range(1, 3)),
+			SurfacedProposals: [][]ocr2keepers.CoordinatedBlockProposal{altProposals(r, r.Range(0, 2)), altProposals(r, r.Range(0, 2))}}
+		return c15OutcomeIn(o, "wrongWorkIDResult", r)
 	})
 
 	// ---- outcome
